@@ -57,6 +57,102 @@ def check(prog, rep):
 
 
 # ------------------------------------------------------------------------------------------------ R03.1
+def _indices_value(prog, fi, v, assigns, vparam, depth=0, pick=None, node_lists=()):
+    """(True | False | None, why): is ``v`` the array [colmap[e.name] for e in <node>.vector._variables] with
+    colmap = {u.name: i for i, u in enumerate(<the caller's variable list>)}?  Followed through locals, np.array /
+    np.asarray / np.fromiter wrappers and a module-level helper that returns it (alone or as item ``pick`` of a tuple).
+    False only for a recognised lookup with a wrong part; anything else is None."""
+    def one(name):
+        vals = [x for x in assigns.get(name, []) if isinstance(x, ast.AST)]
+        if len(vals) == 1:
+            return vals[0]
+        if len(vals) > 1 and getattr(v, "_parent", None) is not None:
+            from ..astutil import reaching_value
+            return reaching_value(v, name)      # the definition that reaches this use (same branch)
+        return None
+
+    e = v
+    for _ in range(4):
+        if isinstance(e, ast.Call) and (dotted(e.func) or "") in ("np.array", "np.asarray", "np.fromiter", "numpy.array", "list", "tuple") and e.args:
+            e = e.args[0]
+        elif isinstance(e, ast.Name) and one(e.id) is not None:
+            e = one(e.id)
+        else:
+            break
+    if isinstance(e, (ast.ListComp, ast.GeneratorExp)) and len(e.generators) == 1 and not e.generators[0].ifs:
+        g = e.generators[0]
+        elt = e.elt
+        if not (isinstance(elt, ast.Subscript) and isinstance(elt.value, ast.Name)):
+            return None, "element is not a table lookup"
+        # the table
+        m = one(elt.value.id)
+        if not isinstance(m, ast.DictComp) or len(m.generators) != 1:
+            return None, f"{elt.value.id} is not a dict comprehension in this function"
+        mg = m.generators[0]
+        it = mg.iter
+        if not (isinstance(it, ast.Call) and dotted(it.func) == "enumerate" and it.args and isinstance(mg.target, ast.Tuple) and len(mg.target.elts) == 2):
+            return None, "the column table is not built over enumerate(..)"
+        i_, u_ = [src(t) for t in mg.target.elts]
+        if src(it.args[0]) != vparam:
+            return False, f"the column table enumerates `{src(it.args[0])}`, not the caller's variable list `{vparam}`"
+        if src(m.value) != i_:
+            return False, f"the column table maps to `{src(m.value)}`, not the position `{i_}`"
+        if src(m.key) != f"{u_}.name":
+            return None, f"the column table is keyed by `{src(m.key)}`"
+        # the lookup key and the iterated list
+        var = src(g.target)
+        if src(elt.slice) != f"{var}.name":
+            return (False, f"looks up `{src(elt.slice)}`, not the name of the iterated variable") if var in src(elt.slice) or isinstance(elt.slice, ast.Constant) else (None, "lookup key not interpretable")
+        lst = g.iter
+        if isinstance(lst, ast.Name) and one(lst.id) is not None:
+            lst = one(lst.id)
+        ls = src(lst)
+        if ls.endswith("._variables") and ls != f"{vparam}._variables":
+            return True, "lookup of the node's own variables by name"
+        if ls in node_lists:
+            return True, "lookup of the node's own variables (passed in by the caller) by name"
+        if ls == vparam:
+            return False, f"iterates the caller's variable list `{vparam}` instead of the node's own variables"
+        return None, f"iterates `{ls[:40]}`"
+    if isinstance(e, ast.Call) and isinstance(e.func, ast.Name) and depth < 2:
+        g = prog.functions.get(f"{fi.module.name}:{e.func.id}")
+        if g is None or e.keywords:
+            return None, f"built by {e.func.id}(..), not resolved"
+        gp = [a.arg for a in g.node.args.args]
+        if len(gp) != len(e.args):
+            return None, f"built by {e.func.id}(..), arity not matched"
+        bind = dict(zip(gp, e.args))
+        gv = next((p_ for p_, a_ in bind.items() if src(a_) == vparam), None)
+        if gv is None:
+            return None, f"{e.func.id}(..) is not given the caller's variable list"
+        rets = [r.value for r in walk_local(g.node, include_self=False) if isinstance(r, ast.Return) and r.value is not None]
+        ga = local_assignments(g.node)
+        # parameters bound to `<node>.vector` / `<node>.vector._variables` keep their meaning: the helper's list parameter
+        # stands for the node's own variables when the caller passes them
+        out = []
+        for r in rets:
+            item = r
+            if isinstance(r, ast.Tuple):
+                if pick is None or pick >= len(r.elts):
+                    return None, f"{e.func.id}(..) returns a tuple"
+                item = r.elts[pick]
+            lists = tuple(p_ for p_, a_ in bind.items() if src(a_).endswith("._variables") and src(a_) != f"{vparam}._variables")
+            verdict, why = _indices_value(prog, g, item, ga, gv, depth + 1, node_lists=lists)
+            if verdict is True:
+                # the iterated list inside the helper must be (derived from) the parameter the caller binds to the node's variables
+                out.append((True, why))
+            else:
+                out.append((verdict, f"in {g.name}: {why}"))
+        if not out:
+            return None, f"{e.func.id}(..) has no return value"
+        for want in (False, None):
+            for o in out:
+                if o[0] is want:
+                    return o
+        return out[0]
+    return None, "not a recognisable lookup"
+
+
 def _alignment(prog, rep, factories):
     n = 0
     for q, fi in sorted(factories.items()):
@@ -75,13 +171,16 @@ def _alignment(prog, rep, factories):
             if nm != "indices":
                 continue
             for v in vals:
-                s = src(v)
-                maps = [m for m, vs in assigns.items() if any(isinstance(x, ast.DictComp) for x in vs)]
-                ok = any(f"{m}[v.name]" in s for m in maps) and "vector_vars" in s
-                vv = [src(x) for x in assigns.get("vector_vars", [])]
-                ok = ok and all(x.endswith(".vector._variables") for x in vv)
+                pick = None
+                par = getattr(v, "_parent", None)
+                if isinstance(par, ast.Assign) and isinstance(par.targets[0], (ast.Tuple, ast.List)):
+                    pick = next((i for i, t in enumerate(par.targets[0].elts) if isinstance(t, ast.Name) and t.id == nm), None)
+                verdict, why = _indices_value(prog, fi, v, assigns, vparam, pick=pick)
                 n += 1
-                rep.ob("R03.1", f"{fi.name}:indices", ok, "indices = column of each of the node's own variables, looked up by name" if ok else f"indices are built as `{s[:60]}`: not a lookup of the node's variables in the caller's column map", loc=f"{fi.module.rel}:{v.lineno}", detail=f"indices@{v.lineno - fi.node.lineno > 40}")
+                if verdict is None:
+                    rep.undecided(f"{fi.name}:indices: `{src(v)[:60]}` -- {why}")
+                    continue
+                rep.ob("R03.1", f"{fi.name}:indices", verdict, "indices = column of each of the node's own variables, looked up by name" if verdict else f"indices are built as `{src(v)[:60]}`: {why}", loc=f"{fi.module.rel}:{v.lineno}", detail=f"indices@{v.lineno - fi.node.lineno > 40}", robust=True)
     # general paths
     cg = prog.func("optyx.core.compiler:compile_gradient")
     from .common import helper_closure
